@@ -2630,6 +2630,45 @@ func metricFormula(w *load.World, c *core.Collector) {
 			}
 			break
 		}
+		// the branches meet in a variable that is returned further down (after a nil test, say)
+		if _, isRet := t.Instrs[len(t.Instrs)-1].(*ssa.Return); !isRet {
+			for _, in := range t.Instrs {
+				phi, ok := in.(*ssa.Phi)
+				if !ok {
+					break
+				}
+				returned := false
+				var reaches func(v ssa.Value, d int)
+				reaches = func(v ssa.Value, d int) {
+					if d > 4 || v.Referrers() == nil {
+						return
+					}
+					for _, r := range *v.Referrers() {
+						switch x := r.(type) {
+						case *ssa.Return:
+							returned = true
+						case *ssa.ChangeType:
+							reaches(x, d+1)
+						case *ssa.MakeInterface:
+							reaches(x, d+1)
+						case *ssa.Phi:
+							reaches(x, d+1)
+						}
+					}
+				}
+				reaches(phi, 0)
+				if !returned {
+					continue
+				}
+				for k, p := range t.Preds {
+					if p == prev {
+						for _, fn := range funcValuesOf(w, phi.Edges[k], 0) {
+							byName[name] = fn
+						}
+					}
+				}
+			}
+		}
 		if ret, ok := t.Instrs[len(t.Instrs)-1].(*ssa.Return); ok && len(ret.Results) > 0 {
 			rv := ret.Results[0]
 			// the function chosen on this branch, when the branches meet in one return
